@@ -22,6 +22,7 @@ from . import boundary, detmodel as D
 DET = "pyxel/detectors/"
 BOUNDED = {
     r'^load_model\.history': 'the history load ; empty ; load',
+    r'^asdf\.writer': 'processed-data mappings of two groups',
 }      # unit-name / obligation-name patterns -> the family these obligations are proved for
 TRUSTED = ["the ASDF library writes and reads back the tree it is given; xr.Dataset/DataTree/DataArray.to_dict/from_dict and DataFrame.to_dict/DataFrame(dict) are mutually inverse "
            "(scene, processed data and the charge cluster table are boundaries)", "HDF5 backend (h5py) is not installed: not covered",
@@ -472,3 +473,77 @@ def load_history(u: Unit):
                 present = arr.present
             u.oblige(p, f"load_model.history[{b}]", z3.And(zb(present), got == FILE[b](*D.GEN)) if got is not None else False, {}, HISTORY_REPLAY)
     u.cover("load_model.history.cover", [1] * n_ret, lambda _: True)
+
+
+# ---- the ASDF writer hands the library EVERYTHING the detector's dictionary holds -----------------------------------------
+ASDF_REPLAY = lambda w: {"code": """
+import numpy as np, tempfile, os, xarray as xr, verif_probes as VP
+from pyxel.detectors import Detector
+VIOLATED, DETAIL = False, 'every group of the processed-data tree survived the ASDF round trip'
+d = VP.detector(rows=2, cols=3); d.pixel.array = np.full((2, 3), 5.0)
+tree = xr.DataTree()
+tree['/statistics'] = xr.DataTree(xr.Dataset(coords={'y': [0, 1], 'x': [0, 1, 2]}))                    # a group holding coordinates only
+tree['/statistics/pixel'] = xr.DataTree(xr.Dataset({'mean': ('y', [1.0, 2.0])}))
+tree['/linear_regression/todo'] = xr.DataTree(xr.Dataset())                                            # an empty leaf group
+d._data = tree
+fn = os.path.join(tempfile.mkdtemp(), 'det.asdf')
+d.save(fn)
+d2 = Detector.load(fn)
+want = sorted(n.path for n in tree.subtree)
+got = sorted(n.path for n in d2.data.subtree)
+if want != got or not d2.data.equals(tree):
+    VIOLATED, DETAIL = True, f'processed-data groups written {want}, read back {got}; equal trees: {d2.data.equals(tree)}'
+""", "expect": "every group of detector.data (with or without variables) is written and read back"}
+
+
+@unit("C18", "asdf.writer")
+def asdf_writer(u: Unit):
+    """to_asdf(filename, dct): the dictionary handed to asdf.AsdfFile still holds every entry of the detector's dictionary; the
+    cluster table is replaced by its list form and EVERY group of the processed-data mapping by its dict form (whatever the
+    group contains: the truth value of a Dataset is unknown here); the file is written under the given name.
+    Processed-data mappings of two groups (bounded), symbolic contents."""
+    fi = u.fn("pyxel/backends/asdf.py::to_asdf")
+    cfg = Cfg("real")
+    boundary.install(cfg, prefixes=("xarray.", "dask.", "tqdm.", "pandas.", "asdf."))
+    base_attr = cfg.lib_overrides[("opaque_attr", "xr")]
+
+    def setup(ex):
+        st = ex.st
+        o = lambda l: VOpaque("xr", st.fresh_int("xr"), {"label": l})
+        h = ex.hold = {"df": o("charge_frame"), "g1": o("group1"), "g2": o("group2"), "props": o("properties"), "pix": o("pixel_dict"), "fn": VStr(z3.String("filename"))}
+        k1, k2 = VStr(z3.String("group_key1")), VStr(z3.String("group_key2"))
+        st.assume(k1.v != k2.v)
+        h["k1"], h["k2"] = k1, k2
+        data = st.alloc(HDict([(VStr("charge"), st.alloc(HDict([(VStr("frame"), h["df"]), (VStr("array"), o("charge_array"))]))), (VStr("pixel"), h["pix"]),
+                               (VStr("data"), st.alloc(HDict([(k1, h["g1"]), (k2, h["g2"])])))]))
+        h["data"] = data
+        dct = st.alloc(HDict([(VStr("version"), VInt(1)), (VStr("type"), VStr("CCD")), (VStr("properties"), h["props"]), (VStr("data"), data)]))
+        h["dct"] = dct
+        return [], {"filename": h["fn"], "dct": dct}
+    ps = u.paths(fi, setup, cfg, label="to_asdf")
+    n_ret = 0
+    for p in ps:
+        if p.kind != "return":
+            u.oblige(p, "asdf.writer.no_raise", False, {"exc": p.exc_name()}, ASDF_REPLAY)
+            continue
+        n_ret += 1
+        h, st = p.ex.hold, p.st
+        files = [e for e in st.events if e[0] == "lib_call" and e[1].endswith("AsdfFile")]
+        writes = [e for e in st.events if e[0] == "xr_call" and str(e[1]).endswith("write_to")]
+        ok = len(files) == 1 and files[0][2] and files[0][2][0] is h["dct"] and len(writes) == 1 and writes[0][2] and writes[0][2][0] is h["fn"]
+        u.oblige(p, "asdf.writer.whole_dictionary_under_the_given_name", bool(ok), {}, ASDF_REPLAY)
+        top = {k.v: v for k, v in st.cell(h["dct"]).items}
+        data = {k.v: v for k, v in st.cell(h["data"]).items} if top.get("data") is h["data"] else {}
+        u.oblige(p, "asdf.writer.other_entries_untouched", bool(top.get("properties") is h["props"] and isinstance(top.get("version"), VInt) and top["version"].v == 1
+                                                              and data.get("pixel") is h["pix"] and set(top) == {"version", "type", "properties", "data"}), {}, ASDF_REPLAY)
+        groups = p.ex.try_dict(data.get("data")) if isinstance(data.get("data"), VRef) else None
+        okg = groups is not None and len(groups) == 2
+        if okg:
+            for (k, v), key, src in zip(groups, (h["k1"], h["k2"]), (h["g1"], h["g2"])):
+                okg = okg and z3.eq(z_str(k.v), z_str(key.v)) and isinstance(v, VOpaque) and v.info.get("fn") is not None and str(v.info["fn"].info.get("attr")) == "to_dict" and v.info["fn"].info.get("of") is src
+        u.oblige(p, "asdf.writer.every_processed_data_group_written", bool(okg), {"groups": len(groups) if groups is not None else -1}, ASDF_REPLAY)
+        ch = p.ex.try_dict(data.get("charge")) if isinstance(data.get("charge"), VRef) else None
+        fr_ = dict((k.v, v) for k, v in ch).get("frame") if ch else None
+        okf = isinstance(fr_, VOpaque) and fr_.info.get("fn") is not None and str(fr_.info["fn"].info.get("attr")) == "to_dict" and fr_.info["fn"].info.get("of") is h["df"]
+        u.oblige(p, "asdf.writer.cluster_table_in_list_form", bool(okf), {}, ASDF_REPLAY)
+    u.cover("asdf.writer.cover", [1] * n_ret, lambda _: True)
